@@ -1382,7 +1382,15 @@ func (a *Agent) addCandidate(ctx context.Context, cand Candidate, candidateConn 
 		return err
 	}
 
-	return a.loop.Run(ctx, func(context.Context) {
+	var addErr error
+	if err := a.loop.Run(ctx, func(context.Context) {
+		// Restart cancels the gathering on this loop. The check above and the select in
+		// loop.Run can both let a cycle through that has been canceled in the meantime:
+		// look again now that nothing can run in between.
+		if addErr = ctx.Err(); addErr != nil {
+			return
+		}
+
 		set := a.localCandidates[cand.NetworkType()]
 		for _, candidate := range set {
 			if candidate.Equal(cand) {
@@ -1415,7 +1423,11 @@ func (a *Agent) addCandidate(ctx context.Context, cand Candidate, candidateConn 
 		if !cand.filterForLocationTracking() {
 			a.candidateNotifier.EnqueueCandidate(cand)
 		}
-	})
+	}); err != nil {
+		return err
+	}
+
+	return addErr
 }
 
 func (a *Agent) setCandidateExtensions(cand Candidate) {
